@@ -76,7 +76,7 @@ PROPS = {
     'C06': dict(
         title='no panic / overflow / non-termination in the core',
         obligations=['allexec', 'clausere:#small$', 'clausere:#wf$', 'fn:lemma_c06_rwf_closed', 'fn:reach_bs_wf', 'fn:reach_overlap', 'mod:m_bound_spec', 'mod:m_range_spec', 'mod:m_order'],
-        assumptions=[STD, 'Range::parse, fmt, miette, location(): not under contract', 'Version::parse and the version grammar are under contract over the assumed winnow contracts: ' + WINNOW, 'representation invariant rwf / wf_partial / component bounds as preconditions (established by every constructor under contract)'],
+        assumptions=[STD, 'Range::parse, Display for Range / BoundSet beyond reachability of unreachable!, miette, location(): not under contract', 'Display for Identifier / VersionDiff / Version: ' + FMT, 'Version::parse and the version grammar are under contract over the assumed winnow contracts: ' + WINNOW, 'representation invariant rwf / wf_partial / component bounds as preconditions (established by every constructor under contract)'],
         not_decided=['every string through Range::parse (Version::parse: no panic for any string is an obligation, the construction of the returned error is not)', 'error accessors and diagnostics', 'roughly linear time (no cost model)'],
         witness='c06',
     ),
